@@ -261,6 +261,19 @@ func runCase(c Case, choose func(int, []string) int) result {
 	if r.faulted {
 		suffix += "/under-single-tier-fault"
 	}
+	if shape == "async-writeback" {
+		// the detached write-back exists only on a cache MISS: which programs can miss (cold cache, or a
+		// program that deletes) is part of the root cause. A write-back in a program that never misses on
+		// the pinned tree is a different defect.
+		cache := "cold-cache"
+		if c.Warm {
+			cache = "warm-cache"
+		}
+		if failedGet {
+			cache += "/after-cache-read-fault" // a cache read error is treated as a miss (listed finding): a warm cache misses too
+		}
+		shape += "/prog=" + c.Prog + "/" + cache
+	}
 	fail := func(symptom, detail string) {
 		r.key = "C14/" + shape + "/" + symptom + suffix
 		r.detail = detail + "; schedule: " + vkit.StepsString(log)
